@@ -386,11 +386,9 @@ Proof.
   - pose proof (be32_rd32 teid Ht). lia.
 Qed.
 
-Lemma mup_prefix_sig pl a w : blen a = w -> pl <= 8 * w -> mup_prefix pl a = sig_octets pl a /\ blen (sig_octets pl a) = (pl + 7) / 8.
+Lemma mup_prefix_sig pl a : (pl + 7) / 8 <= blen a -> mup_prefix pl a = sig_octets pl a /\ blen (sig_octets pl a) = (pl + 7) / 8.
 Proof.
-  intros Ha Hpl. unfold mup_prefix, sig_octets. change (len a) with (blen a).
-  assert (Hle : (pl + 7) / 8 <= blen a).
-  { rewrite Ha. assert ((pl + 7) / 8 < w + 1) by (apply N.div_lt_upper_bound; lia). lia. }
+  intros Hle. unfold mup_prefix, sig_octets. change (len a) with (blen a).
   rewrite N.min_l by exact Hle. split; [reflexivity | apply sig_octets_blen; exact Hle].
 Qed.
 
@@ -409,8 +407,8 @@ Proof.
   set (w := if v6 then 16 else 4) in *.
   assert (Hw : w = 4 \/ w = 16) by (subst w; destruct v6; auto).
   destruct m as [rd pl a | rd a | rd pl a teid qfi ep src | rd el ep teid]; cbn [canon_struct].
-  - destruct Hwf as [Hrd [Hpl Ha]]. apply Ok_inj in Hb. apply pair_equal_spec in Hb as [Hty Hbody]. subst ty.
-    destruct (mup_prefix_sig pl a _ Ha Hpl) as [Hp Hps]. rewrite Hp in Hbody.
+  - destruct Hwf as [Hrd [Hpl [Ha Haw]]]. apply Ok_inj in Hb. apply pair_equal_spec in Hb as [Hty Hbody]. subst ty.
+    destruct (mup_prefix_sig pl a Ha) as [Hp Hps]. rewrite Hp in Hbody.
     assert (Hlen : blen body < 256).
     { subst body. blen_norm. rewrite Hrd, Hps.
       assert ((pl + 7) / 8 < 17) by (apply N.div_lt_upper_bound; lia). lia. }
@@ -422,8 +420,8 @@ Proof.
     assert (Hlen : blen body < 256) by (subst body; blen_norm; rewrite Hrd, Ha; lia).
     mup_frame body Hlen. fold w. subst body.
     rewrite (takes_fields _ [rd; a] (@nil N)); [reflexivity | cbn [map]; rewrite Hrd, Ha; reflexivity | cbn [concat]; rewrite ?app_nil_r; reflexivity].
-  - destruct Hwf as [Hrd [Hpl [Ha [Ht [Hep Hsrc]]]]]. apply Ok_inj in Hb. apply pair_equal_spec in Hb as [Hty Hbody]. subst ty.
-    destruct (mup_prefix_sig pl a _ Ha Hpl) as [Hp Hps]. rewrite Hp in Hbody.
+  - destruct Hwf as [Hrd [Hpl [Ha [Haw [Ht [Hep Hsrc]]]]]]. apply Ok_inj in Hb. apply pair_equal_spec in Hb as [Hty Hbody]. subst ty.
+    destruct (mup_prefix_sig pl a Ha) as [Hp Hps]. rewrite Hp in Hbody.
     set (tail := match src with None => [0] | Some s => [8 * len s] ++ s end) in *.
     assert (Htl : blen tail <= 17).
     { subst tail. destruct src as [s|]; [rewrite blen_app, Hsrc; change (blen [8 * len s]) with 1; lia | cbn; lia]. }
